@@ -63,6 +63,8 @@ pub mod sim {
         pub len: usize,
         /// total number of simulated writes that hit this region
         pub nwrites: u32,
+        /// the page protection currently does not allow execution (W^X schemes clear and restore it)
+        pub noexec: bool,
     }
     pub const EMPTY: Region = Region {
         magic: 0x5eed_c0de,
@@ -74,6 +76,7 @@ pub mod sim {
         wr: [false; RLEN],
         len: 0,
         nwrites: 0,
+        noexec: false,
     };
 
     /// ALL mutable model state lives in this one struct.  Kani 0.68 was measured to alias a
@@ -313,12 +316,10 @@ pub mod sim {
         let mut k = 0;
         while k < RLEN {
             if k < n {
-                if is_text {
-                    assert!(
-                        r.wr[k],
-                        "VERIF[C01]: write to a text byte whose page was not made writable (SIGSEGV on hardware)"
-                    );
-                }
+                assert!(
+                    r.wr[k],
+                    "VERIF[C01]: write to a code byte whose page is not writable at that moment (SIGSEGV on hardware)"
+                );
                 r.bytes[k] = tmp[k];
                 r.dirty[k] = true;
             }
@@ -399,7 +400,7 @@ pub mod sim {
             }
             j += 1;
         }
-        panic!("VERIF[C03]: read from an address that is neither a designated function entry nor a live trampoline");
+        panic!("VERIF[C03,C02,C16]: read from an address that is neither a designated function entry nor a live trampoline (the bytes saved for restoration are not the ones that get overwritten)");
     }
 
     unsafe fn flush_region(r: &mut Region, s: u64, e: u64) {
@@ -521,7 +522,7 @@ fn nondet_bool() -> bool {
 #[cfg(not(kani))]
 fn assume(_c: bool) {}
 
-unsafe fn new_mapping(r: u64, len: size_t) -> *mut c_void {
+unsafe fn new_mapping(r: u64, len: size_t, prot: c_int) -> *mut c_void {
     // first slot that is not currently mapped (slots of unmapped trampolines are recycled)
     let mut j = sim::S.NJ_ACT;
     let mut i = 0;
@@ -540,6 +541,8 @@ unsafe fn new_mapping(r: u64, len: size_t) -> *mut c_void {
     sim::JIT[j].live = true;
     sim::JIT[j].slot = sim::RLEN;
     sim::JIT[j].len = len;
+    sim::JIT[j].wr = [prot & PROT_WRITE != 0; sim::RLEN];
+    sim::JIT[j].noexec = prot & PROT_EXEC == 0;
     sim::S.N_MMAP_OK += 1;
     r as *mut c_void
 }
@@ -558,10 +561,6 @@ pub unsafe fn mmap(
         "VERIF[C09,C05,C10]: a trampoline was mapped by an installation that has to be refused"
     );
     assert!(len > 0 && len <= sim::RLEN, "MODEL: trampoline length outside the modelled block");
-    assert!(
-        prot & PROT_WRITE != 0 && prot & PROT_EXEC != 0,
-        "VERIF[C01]: trampoline mapping is not writable+executable"
-    );
     let maplen = sim::page_ceil(len as u64);
     let hint = addr as u64;
     if sim::S.ALLOC_STRICT {
@@ -572,8 +571,8 @@ pub unsafe fn mmap(
         let mut i = 0;
         while i < sim::S.NE_ACT {
             assert!(
-                !sim::ENT[i].live || (sim::ENT[i].nwrites == 0 && sim::S.N_MPROTECT == 0),
-                "VERIF[C11]: the function was modified or re-protected before a trampoline within reach was secured"
+                !sim::ENT[i].live || sim::ENT[i].nwrites == 0,
+                "VERIF[C11]: the function was modified before a trampoline within reach was secured"
             );
             i += 1;
         }
@@ -586,7 +585,7 @@ pub unsafe fn mmap(
             assume(r & (sim::S.PAGE - 1) == 0 && r >= sim::S.PAGE && r < top);
             assume(r.abs_diff(sim::S.COOP_CENTER) <= sim::S.COOP_RANGE);
             assume(!sim::collides(r, maplen));
-            new_mapping(r, len)
+            new_mapping(r, len, prot)
         }
         1 => {
             let forced = sim::S.ANY_FORCE_AT != 0 && sim::S.N_MMAP >= sim::S.ANY_FORCE_AT;
@@ -599,7 +598,7 @@ pub unsafe fn mmap(
             if forced {
                 assume(r.abs_diff(sim::S.COOP_CENTER) < sim::S.COOP_RANGE);
             }
-            new_mapping(r, len)
+            new_mapping(r, len, prot)
         }
         _ => {
             // Linux without MAP_FIXED: the hint (rounded down to a page) is used iff
@@ -615,13 +614,13 @@ pub unsafe fn mmap(
                         _ => h == sim::S.LAYOUT_FREE,
                     });
             if free {
-                return new_mapping(h, len);
+                return new_mapping(h, len, prot);
             }
             let fb = sim::S.LAYOUT_FALLBACK;
             if fb == 0 || sim::collides(fb, maplen) {
                 return MAP_FAILED;
             }
-            new_mapping(fb, len)
+            new_mapping(fb, len, prot)
         }
     }
 }
@@ -659,10 +658,7 @@ pub unsafe fn mprotect(addr: *mut c_void, len: size_t, prot: c_int) -> c_int {
     }
     let end = a.wrapping_add(sim::page_ceil(len as u64));
     let w = prot & PROT_WRITE != 0;
-    assert!(
-        prot & PROT_EXEC != 0 && prot & PROT_READ != 0,
-        "VERIF[C03]: mprotect removes read/execute permission from program text"
-    );
+    let nx = prot & PROT_EXEC == 0;
     let mut i = 0;
     while i < sim::S.NE_ACT {
         if sim::ENT[i].live {
@@ -671,11 +667,22 @@ pub unsafe fn mprotect(addr: *mut c_void, len: size_t, prot: c_int) -> c_int {
                 let b = sim::ENT[i].base.wrapping_add(k as u64);
                 if a <= b && b < end {
                     sim::ENT[i].wr[k] = w;
+                    if k == 0 {
+                        sim::ENT[i].noexec = nx;
+                    }
                 }
                 k += 1;
             }
         }
         i += 1;
+    }
+    let mut j = 0;
+    while j < sim::S.NJ_ACT {
+        if sim::JIT[j].live && a <= sim::JIT[j].base && sim::JIT[j].base < end {
+            sim::JIT[j].wr = [w; sim::RLEN];
+            sim::JIT[j].noexec = nx;
+        }
+        j += 1;
     }
     0
 }
